@@ -65,7 +65,7 @@ def generate(rng, tier="quick"):
         u = rng.choice(sorted(world["docs"]))
         names = sorted(world["docs"][u].get("definitions", {})) if isinstance(world["docs"][u], dict) else []
         extra.append(u + rng.choice(["", "#"]) if not names or rng.random() < 0.3
-                     else u + "#/definitions/" + rng.choice(names))
+                     else u + "#/definitions/" + W.ptr_token(rng.choice(names)))
     base["extra_validators"] = extra
     configs = []
     for cr, uj, rc in chosen:
@@ -104,7 +104,8 @@ def generate(rng, tier="quick"):
         elif kind == "resolve_fragment":
             op["doc"] = rng.choice(sorted(world["docs"]) + [""])
             op["frag"] = rng.choice(["", "/definitions/n0", "/definitions", "/definitions/n1/items", "/nowhere",
-                                     "/definitions/n0/properties/a", "/definitions/n%300", "/definitions/~0"])
+                                     "/definitions/n0/properties/a", "/definitions/n%300", "/definitions/~0", "/definitions/~01", "/definitions/~1",
+                                     "/definitions/~00", "/definitions/a~1b", "/definitions/p%25q"])
         elif kind == "in_scope":
             op["scope"] = rng.choice(["sub/", "http://sim.test/root/sub/", "#x"] + sorted(world["docs"]))
             op["ref"] = rng.choice(refs)
@@ -209,6 +210,12 @@ def execute(scn):
         states.append(digest([op["op"], outs[0].get("k"),
                               [sorted(a.resolver.store.keys()) for a in actors],
                               [sorted(a.transport.ok.items()) for a in actors]]))
+        from dsim import canon
+        if canon.nodes() > 25000:
+            # exponential error trees (thousands of nested oneOf/anyOf errors per outcome, times the number of
+            # configurations): the rest of the history is dropped - deterministically, by a count, not a clock
+            probe("history_cut_short_heavy_error_trees")
+            break
     calls = sum(len(a.transport.log) for a in actors)
     stats["transport_calls"] = calls
     stats["ops"] = len(scn["ops"]) * len(actors)
